@@ -484,6 +484,23 @@ def py_hash(ex, v):
     raise Unsupported(f"hash of {v!r}")
 
 
+@libfn("collections.Counter")
+def _counter(ex, args, kwargs, fr):
+    """Counter(iterable) for concrete hashable items: a dict of counts in first-occurrence order (library contract)."""
+    items = ex.iterate(args[0], fr) if args else []
+    out = []
+    for x in items:
+        if not (hasattr(x, "v") and is_conc(x.v)):
+            raise Unsupported("Counter over symbolic items")
+        for i, (k, c) in enumerate(out):
+            if type(k) is type(x) and k.v == x.v:
+                out[i] = (k, VInt(c.v + 1))
+                break
+        else:
+            out.append((x, VInt(1)))
+    return ex.st.alloc(HDict(out))
+
+
 @libfn("builtins.hash")
 def _hash(ex, args, kwargs, fr):
     return VInt(py_hash(ex, args[0]))
